@@ -8,7 +8,9 @@ FAMILIES = [
     {"name": "ammrt", "family": "ammrt", "driver": "drv_amm", "n_quick": 2500, "n_thorough": 20000, "seeds_thorough": 3},
 ]
 RULE = ("amm: L1 histories on the real message server (three swap routes, fee overrides, ratio-shifting rates, liabilities) with the "
-        "balance changes of ALL known accounts judged by Spec.C03.settleOK and the whole state compared with the model; "
+        "balance changes of ALL known accounts judged by Spec.C03.settleOK and the whole state compared with the model; 1 random swap in 4 "
+        "(and every route of the fee-override history) also with the stated minimum at the exact output (accepted), one above it and ~0.5% above it (refused), "
+        "the exact output measured by the same message on a discarded copy of the state; "
         "calc: CalcSwapResult on log-uniform depths 1..2^110, amounts to 2^128, boundary values, fee rates in [0,1], "
         "ratio-shifting rates 0..1e6; non-trivial = distinct input with a non-zero pool and amount")
 TRUSTED_BASE = [
